@@ -51,3 +51,6 @@ func thorough() bool
 func bOr(a, b bool) bool
 func bAnd(a, b bool) bool
 func bImplies(a, b bool) bool
+
+// symKey returns the text the executor's fmt model prints for x (the decimal value natively).
+func symKey(x uint64) string
